@@ -256,6 +256,16 @@ def _replay(rec: Dict[str, Any]) -> List[Tuple[str, Dict[str, Any], str]]:
                 break
         if caching and _verif.ENABLED:
             rec["_events"] = normalise(_verif.sink)
+        if not disc and rec["q"] in _noctx:
+            # after all that, an evaluation that is given no filter context (and one given an empty one) sees none
+            try:
+                for d0 in range(len(docs)):
+                    want = [loc_to_parts(l) for l in _noctx[rec["q"]][d0]]
+                    if [tuple(m.parts) for m in path.finditer(docs[d0])] != want or [tuple(m.parts) for m in path.finditer(docs[d0], filter_context={})] != want:
+                        disc = "evaluation-without-a-filter-context-sees-an-earlier-one"
+                        break
+            except BaseException as e:  # noqa: BLE001
+                disc = f"evaluation-without-a-filter-context-raised-{exc_family(e)}"
         if not disc and rec.get("_repeat"):
             first = [tuple(m.parts) for m in path.finditer(docs[0], filter_context=ctxs[0])]
             for _ in range(100):
@@ -297,6 +307,7 @@ INVARIANT Export
 {props}
 """
 _tables: Dict[int, Any] = {}
+_noctx: Dict[int, Any] = {}
 # (document, context) of each thread: different roots and different contexts, the third equal to the first in value
 THREAD_PAIRS = {2: [(1, 1), (2, 2)], 3: [(1, 1), (2, 2), (3, 2)],
                 # (key 22) two threads reading one and the same document and context object
@@ -465,6 +476,7 @@ def run(chk: Check, tier: str, seed: int) -> None:
                 _info.update(x)
             elif "table" in x:
                 _tables[x["table"]] = x["exp"]
+                _noctx[x["table"]] = x["noctx"]
             else:
                 recs.append(x)
     if tier == "quick":
